@@ -463,6 +463,15 @@ func (env *SpecEnv) ident(name string) TVal {
 			return TVal{T: gt, Ty: o.Type()}
 		}
 	}
+	// a recorded name of a variable that has been renamed in the code since the ledger was written
+	if cur, ok := fc.top.alias[name]; ok && cur != name {
+		if v, ok := env.Vars[cur]; ok {
+			return v
+		}
+		if v, ok := fc.lookupLocal(env, cur); ok {
+			return v
+		}
+	}
 	// ghost variables
 	if g := fc.E.ghost(env.PkgPath, name); g != nil {
 		genv := *env
